@@ -19,5 +19,16 @@ CLAIMED = {
     ),
 }
 
+CLAIMED["C09"] = dict(
+    technique="abstract interpretation of all 61 opcode handlers over a symbolic stack/memo, compared row by row with pickletools' declared stack effects; structural rules for Stack, Interpreter.step and Trace",
+    level="Exhaustive over the finite opcode set: each handler's (mark, pops, pushes, peeks, memo traffic) summary on every path equals the effect CPython's pickletools table declares, so stack depth, mark positions and memo keys agree with the real VM after every opcode of every program both accept; Trace is shown passive (one step and one report per opcode, no writes to interpreter or pickle state, returns the interpreter's own program). Symbolic contents of the stack are C05's business.",
+    note="Trusted: pickletools.opcodes as the VM's specification; the mark convention (items listed before `mark` survive); the abstract interpreter sa/vm.py (an unrecognised idiom ends ANALYSIS-ERROR, never a verdict).",
+)
+CLAIMED["C03"] = dict(
+    technique="abstract interpretation of the opcode handlers with provenance of every emitted ast.Call / ImportFrom field; taint x droppers analysis for unbound calls; structural check of the refusal mechanisms and module-body chain",
+    level="Decides the structural necessary conditions: every call-making opcode emits, on every path, a call whose callee and arguments derive from the VM operands and which is bound in the module body at creation (so POP/POP_MARK/DUP/memo traffic/STOP cannot lose it); every import-making opcode appends the import unless the module is a builtins alias; unmodelled opcodes are refused by one of the two NotImplementedError mechanisms; appended statements reach the Module unfiltered and each decompilation uses a fresh interpreter. Not decided: value-level identity of callee/arguments and multiplicity for every program.",
+    note="Trusted: the operand roles of the call/import opcodes read off Lib/pickle.py and frozen in CALL_SPEC/IMPORT_SPEC; sa/vm.py.",
+)
+
 _NOT_YET = "checker not built yet in this session (planned per DESIGN.md section 3); nothing is claimed until it exists"
 NOT_APPLICABLE = {p: _NOT_YET for p in [f"C{i:02d}" for i in range(1, 20)]}
